@@ -65,30 +65,60 @@ theorem live_sound (E : List (Nat × Nat)) (V : List Nat) (F : Flow Nat) (IN OUT
 
 /-! ### Closures -/
 
-/-- the read of `v` by local function `g` is covered by the closure term at node `n` -/
-def closureReadCovered (D : CfgData) (n g v : Nat) : Bool :=
-  (D.fnsIn n).contains g && match D.fnOf g with
+/-- the closure term at node `n` contains `v` on behalf of function `h` -/
+def coveredBy (D : CfgData) (n h v : Nat) : Bool :=
+  (D.fnsIn n).contains h && match D.fnOf h with
     | some fi => !fi.isLambda && fi.read.contains v && !fi.bound.contains v
     | none => false
 
-theorem closureReadCovered_spec (D : CfgData) (n g v : Nat) (h : closureReadCovered D n g v = true) :
-    v ∈ fnFree D n := by
-  simp only [closureReadCovered, Bool.and_eq_true, List.contains_eq_mem, decide_eq_true_eq] at h
-  obtain ⟨hg, h2⟩ := h
+/-- walk the lexical chain reader → enclosing function → … (stopping at the analysed function itself) -/
+def onChain (D : CfgData) (p : Nat → Bool) : Nat → Nat → Bool
+  | 0, _ => false
+  | fuel + 1, g => if g == D.fnId then false else
+      p g || (match D.fnOf g with | some fi => onChain D p fuel fi.parent | none => false)
+
+/-- the read of `v` by the local function `g` (possibly nested deeper) is covered by the closure term at node `n`:
+`g` or a function enclosing it reaches `n`, is not a lambda, and has `v` in `read − bound` -/
+def closureReadCovered (D : CfgData) (n g v : Nat) : Bool :=
+  onChain D (fun h => coveredBy D n h v) (D.fns.length + 1) g
+
+theorem coveredBy_spec (D : CfgData) (n h v : Nat) (hc : coveredBy D n h v = true) : v ∈ fnFree D n := by
+  simp only [coveredBy, Bool.and_eq_true, List.contains_eq_mem, decide_eq_true_eq] at hc
+  obtain ⟨hg, h2⟩ := hc
   simp only [fnFree, List.mem_flatMap]
-  refine ⟨g, hg, ?_⟩
-  cases hf : D.fnOf g with
+  refine ⟨h, hg, ?_⟩
+  cases hf : D.fnOf h with
   | none => rw [hf] at h2; cases h2
   | some fi =>
     rw [hf] at h2
-    simp only [Bool.and_eq_true, Bool.not_eq_true', List.contains_eq_mem, decide_eq_true_eq] at h2
+    simp only [Bool.and_eq_true, Bool.not_eq_true', decide_eq_true_eq,
+      decide_eq_false_iff_not] at h2
     obtain ⟨⟨hl, hr⟩, hb⟩ := h2
     simp [fnFreeOf, hl, List.mem_filter, hr, hb]
 
-/-- finding class (b): the reading function declares `v` nonlocal, which puts `v` into its `bound`
-set, so `read − bound` drops it -/
+theorem onChain_spec (D : CfgData) (p : Nat → Bool) (fuel g : Nat) (h : onChain D p fuel g = true) : ∃ x, p x = true := by
+  induction fuel generalizing g with
+  | zero => simp [onChain] at h
+  | succ f ih =>
+    simp only [onChain] at h
+    split at h
+    · cases h
+    · simp only [Bool.or_eq_true] at h
+      rcases h with h | h
+      · exact ⟨g, h⟩
+      · cases hf : D.fnOf g with
+        | none => rw [hf] at h; cases h
+        | some fi => rw [hf] at h; exact ih _ h
+
+theorem closureReadCovered_spec (D : CfgData) (n g v : Nat) (h : closureReadCovered D n g v = true) :
+    v ∈ fnFree D n := by
+  obtain ⟨x, hx⟩ := onChain_spec D _ _ _ h
+  exact coveredBy_spec D n x v hx
+
+/-- finding class (b): the reading function, or a local function enclosing it, declares `v` nonlocal, which puts `v`
+into its `bound` set, so `read − bound` drops it -/
 def nonlocalInReader (D : CfgData) (g v : Nat) : Bool :=
-  match D.fnOf g with | some fi => fi.nonlocals.contains v | none => false
+  onChain D (fun h => match D.fnOf h with | some fi => fi.nonlocals.contains v | none => false) (D.fns.length + 1) g
 
 /-- finding class: the reading function is a lambda (assumed by the analysis to be used only where it is defined) -/
 def readerIsLambda (D : CfgData) (g : Nat) : Bool :=
@@ -132,6 +162,17 @@ theorem live_out_stmt_sound (E : List (Nat × Nat)) (V : List Nat) (F : Flow Nat
     · exact h1
   simp only [liveOutCovers, List.all_eq_true, List.contains_eq_mem, decide_eq_true_eq] at hcov
   exact hcov _ hn _ hl
+
+/-- `LIVE_VARS_IN(s) =` live_in of the statement's entry node (`_block_statement_live_in`) -/
+def liveInOK (IN : St Nat) (s : StmtData) : Bool :=
+  match s.entry, s.liveIn with
+  | some e, some li => setEqB li (IN e)
+  | _, _ => true
+
+theorem liveInOK_mem {IN : St Nat} {s : StmtData} (h : liveInOK IN s = true) (e : Nat) (li : List Nat)
+    (he : s.entry = some e) (hl : s.liveIn = some li) (v : Nat) (hv : v ∈ IN e) : v ∈ li := by
+  simp only [liveInOK, he, hl] at h
+  exact ((setEqB_spec _ _).mp h v).mpr hv
 
 /-! ### Concrete traces -/
 
